@@ -44,7 +44,10 @@ class RepoSim:
         tA, tB = self.names["a"], self.names["b"]
         # b uses a file of a and a directory that lies in no target (a path under it belongs to b and to nothing else)
         targets = [{"path": tA}, {"path": tB, "uses": [self.names["ag"], self.names["x"]]}]
-        self.fx = fixture.Fixture(bins, targets, gitignore="*.log\n")
+        # the ignore pattern comes from one of git's three standard exclude sources (tree .gitignore, .git/info/exclude,
+        # the user's core.excludesFile); the repository is named on the command line in one of three spellings
+        self.fx = fixture.Fixture(bins, targets, gitignore="*.log\n", ignore_via=("tree", "info", "global")[beh % 3] if isinstance(beh, int) else None,
+                                  via=("plain", "link", "dotdot", "link")[(beh // 3) % 4] if isinstance(beh, int) else None)
         fx = self.fx
         self.id2path = {i: self.names[i] for i in ids}
         self.path2id = {v: k for k, v in self.id2path.items()}
@@ -147,7 +150,10 @@ class RepoSim:
             # the change provider fails (or the update is killed) part-way: nothing may have been recorded
             script = os.path.join(fx.root, "failing-git.sh")
             with open(script, "w") as f:
-                f.write("#!/bin/sh\n" + ("kill -9 $PPID\n" if a.get("kill") else "") + "exit 128\n")
+                # ... by exiting non-zero, or by dying of a signal itself before it has printed anything
+                self._nfaults = getattr(self, "_nfaults", 0) + 1
+                f.write("#!/bin/sh\n" + ("kill -9 $PPID\n" if a.get("kill") else "")
+                        + ("kill -%s $$\nsleep 5\n" % ("TERM", "KILL", "HUP")[self._nfaults % 3] if self._nfaults % 2 == 0 and not a.get("kill") else "") + "exit 128\n")
             os.chmod(script, 0o755)
             p = fx.spawn(["checkpoint", "update", "--git-path", script] + (["-p"] if a.get("pending") else []))
             p.communicate(timeout=60)
@@ -158,8 +164,16 @@ class RepoSim:
             if r["rc"] == 0:
                 self.cp_set = False
         elif k == "out_delete_all":
-            r = fx.monorail(["out", "delete", "--all"])
-            self.events.append({"ev": "out_delete_all", "rc": r["rc"]})
+            self._ndel = getattr(self, "_ndel", 0) + 1
+            r = None
+            if self._ndel % 2 == 0:
+                # invoked from another directory (the configuration is named by its absolute path): it may refuse, but if
+                # it reports success there is no checkpoint afterwards
+                r = fx.monorail(["out", "delete", "--all"], cwd=fx.root)
+                self.events.append({"ev": "out_delete_all", "rc": r["rc"], "elsewhere": True})
+            if r is None or r["rc"] != 0:
+                r = fx.monorail(["out", "delete", "--all"])
+                self.events.append({"ev": "out_delete_all", "rc": r["rc"]})
             if r["rc"] == 0:
                 self.cp_set = False
         else:
